@@ -111,12 +111,16 @@ def check_loops(ctx, rep, rule='L-complete'):
                         y = x
                         while y[0] in ('call', 'pcall') and y[1].endswith('into_iter') and len(y[2]) == 1:
                             y = strip_upd(y[2][0])
+                        rng = None
                         if y[0] == 'agg' and y[5].endswith('::Range') and len(y[4]) == 2:
-                            lo = strip_upd(y[4][0])
-                            hi = strip_upd(y[4][1])
-                            while hi[0] == 'cast':
-                                hi = strip_upd(hi[2])
-                            ok = sym.is_const(lo) and lo[1] == 0 and hi[0] in ('call', 'pcall') and hi[1].endswith('::len')
+                            rng = (y[4][0], y[4][1], 0)
+                        elif y[0] in ('call', 'pcall') and y[1].endswith('RangeInclusive::<Idx>::new') and len(y[2]) == 2:
+                            rng = (y[2][0], y[2][1], 1)      # lo..=hi is lo..hi+1
+                        if rng is not None:
+                            from rules.walkrules import _lin
+                            lo, hi = _lin(rng[0], {}), _lin(rng[1], {})
+                            lens = [k for k in hi[0] if 'len(' in k]
+                            ok = (not lo[0]) and lo[1] == 0 and len(hi[0]) == 1 and len(lens) == 1 and hi[0][lens[0]] == 1 and hi[1] + rng[2] == 0
                             rep.ob(rule, 'walk-covers-all-positions', ok,
                                    'the start positions of the contour walk must run over 0..result_events.len(); found %s' % show(noepoch(y))[:80],
                                    loc=b.loc(b.j['line_lo']), reason='dominance')
